@@ -270,16 +270,24 @@ def rule_chain_align(P):
     loops = [n for n in walk_live(g.node) if isinstance(n, ast.For)]
     ok = False
     slots = {}
-    if len(loops) == 1 and isinstance(loops[0].iter, ast.Call) and W.call_name(loops[0].iter) == "range" \
-            and norm(loops[0].iter) == f"range(len({ext}))" and isinstance(loops[0].target, ast.Name):
-        i = loops[0].target.id
-        calls = W.calls_named(loops[0], "p_next")
-        mults = [n for n in walk_live(loops[0]) if isinstance(n, ast.AugAssign) and isinstance(n.op, ast.Mult)]
-        if len(calls) == 1 and len(mults) == 1:
+    if len(loops) == 1:
+        lp = loops[0]
+        it = norm(lp.iter)
+        i = None
+        if it == f"range(len({ext}))" and isinstance(lp.target, ast.Name):
+            i = lp.target.id
+        elif it == f"enumerate({ext})" and isinstance(lp.target, ast.Tuple) and isinstance(lp.target.elts[0], ast.Name):
+            i = lp.target.elts[0].id
+        calls = W.calls_named(lp, "p_next")
+        mults = [n for n in walk_live(lp) if isinstance(n, ast.AugAssign) and isinstance(n.op, ast.Mult)]
+        if i is not None and len(calls) == 1 and len(mults) == 1:
             st = W.stmt_of(calls[0])
             pvar = st.targets[0].id if isinstance(st, ast.Assign) and isinstance(st.targets[0], ast.Name) else None
-            slots = dict(context_arg=norm(calls[0].args[0]), factor=norm(mults[0].value))
-            ok = norm(calls[0].args[0]) == f"{c2} + {ext}[:{i}]" and norm(mults[0].value) == f"{pvar}[{ext}[{i}]]"
+            ctx_arg = W.cnorm(g.node, calls[0].args[0], calls[0])
+            fac = W.cnorm(g.node, mults[0].value, mults[0])
+            slots = dict(context_arg=ctx_arg, factor=fac)
+            want_fac = (f"self.p_next({c2} + {ext}[:{i}])[{ext}[{i}]]", f"{pvar}[{ext}[{i}]]")
+            ok = ctx_arg == f"{c2} + {ext}[:{i}]" and fac in want_fac
     r.add(g, loops[0] if loops else g.node, ok, "" if ok else "p_next_seq multiplies a misaligned conditional", slots=slots)
     r.min_instances = 2
     return r
